@@ -2,7 +2,7 @@
 # Runs every thorough command once, sequentially; log in /verif/build/thorough_sweep.log
 cd /verif
 mkdir -p build
-: > build/thorough_sweep.log
+touch build/thorough_sweep.log
 for p in "$@"; do
   s=$(date +%s)
   timeout 5400 ./check $p --tier thorough > build/thorough_$p.log 2>&1; rc=$?
